@@ -37,6 +37,8 @@ inductive Beh
   | shutAC  -- challenge, subscribe received, then shutdown notice instead of success
   | errMid  -- challenge, then transport error before the subscribe message could be sent (the send fails)
   | reject  -- challenge, subscribe received, then an error answer for this account (stream stays up)
+  | okShut  -- like `ok`, with a shutdown notice right behind the success message (it is read before the subscribing
+            -- goroutine gets any further)
 deriving DecidableEq, Repr
 
 structure Variant where
@@ -136,6 +138,8 @@ inductive HsRes
   | errRejected    -- an error was returned; the stream is still up
   | errConnect     -- `connectServerStream` returned an error (there is no stream)
   | errBatch       -- `checkPendingBatch` failed on the freshly opened (live) stream
+  | okDirty        -- nil was returned, but a shutdown notice read right behind the success message made the reader
+                   -- close the stream and mark the re-connect in progress dirty
 deriving DecidableEq, Repr
 
 def addAcct (l : List Nat) (a : Nat) : List Nat := if a ∈ l then l else l ++ [a]
@@ -175,6 +179,10 @@ def Client.connectAndAuth (v : Variant) (inline : Client → Client × HsRes) (c
       -- sending Subscribe fails and ErrServerErrored waits on tempErrChan: "let's re-try our connection"
       inline c.failStream
     | .reject => (c.setCur fun s => { s with subs := s.subs ++ [a] }, .errRejected)
+    | .okShut =>
+      -- the reader: `reconnecting > 0` → `reconnectDirty = true; closeStream(); return` (a notice behind the success of
+      -- a subscription made outside a re-connect is handled by `step`)
+      ((c.setCur fun s => { s with subs := s.subs ++ [a], success := s.success ++ [a] }).closeStream, .okDirty)
     | .shutBC => (c, .errShutdown)
     | .shutAC => (c.setCur fun s => { s with subs := s.subs ++ [a] }, .errShutdown)
 
@@ -187,6 +195,11 @@ def Client.resubLoop (v : Variant) (hs : Client → Nat → Client × HsRes) (c 
   | a :: rest =>
     match hs c a with
     | (c', .ok) => c'.resubLoop v hs rest
+    | (c', .okDirty) =>
+      -- the loop goes on (the next subscription finds no stream and connects), the dirty flag stays set
+      match c'.resubLoop v hs rest with
+      | (c'', .ok) => (c'', .okDirty)
+      | r => r
     | (c', r) =>
       -- all keys were deleted from the map before the loop
       (if v.keepOnAbort then { c' with accts := keepAccts c'.accts rest } else c', r)
@@ -213,12 +226,17 @@ def Client.handleShutdown (v : Variant) (pick : List Nat → List Nat) (hs : Cli
   | 0, c =>
     match c.reconnectOnce v pick hs with
     | (c', .errShutdown) => ({ c' with chaos := true }, .errShutdown)
+    | (c', .okDirty) => ({ c' with chaos := true }, .okDirty)
     | r => r
   | f + 1, c =>
     match c.reconnectOnce v pick hs with
     | (c', .errShutdown) =>
       if v.serializeReconnects then Client.handleShutdown v pick hs f c'.closeStream
       else ({ c' with chaos := true }, .errShutdown)
+    | (c', .okDirty) =>
+      -- `if c.reconnectDirty { c.reconnectDirty = false; …; continue }` – also after a successful attempt
+      if v.serializeReconnects then Client.handleShutdown v pick hs f c'.closeStream
+      else ({ c' with chaos := true }, .okDirty)
     | r => r
 
 /-- the handshake function at recursion depth `n` (number of further stream failures it can absorb inline) -/
@@ -276,6 +294,7 @@ def Client.step (v : Variant) (pick : List Nat → List Nat) (c : Client) (op : 
   | .sub a =>
     match hs c a with
     | (c', .ok) => (c', .ok)
+    | (c', .okDirty) => (c'.readerShutdown v hsd depth, .ok)
     | (c', .errShutdown) => (c'.readerShutdown v hsd depth, .err)
     | (c', _) => (c', .err)
   | .errIdle =>
